@@ -121,6 +121,38 @@ func scanFwd(c *core.Ctx) []ob {
 			if len(fd.Body.List) == 0 {
 				return
 			}
+			// the same forwarder spelled through a per-level helper: r.helper((*SubRing).M, p1, p2, p3), where the helper's
+			// body is the per-level loop applying its function parameter to the .Coeffs[i] of its own parameters
+			if callee, polyArgs, pos, ok := fwdThroughHelper(c, pk, fd, subRing, ringRing); ok {
+				mname := fd.Name.Name
+				if fwdPretend != "" && fwdPretendFor == fkey {
+					mname = fwdPretend
+				}
+				same := methodByName(subRing, mname)
+				nI++
+				key := "FWD:" + fkey
+				if same != nil && callee.Name() != mname {
+					out = append(out, violOb("FWD", key, pos, fmt.Sprintf("%s forwards each level to SubRing.%s although SubRing.%s exists: the ring-level operation computes a different function than the one it is named after", fkey, callee.Name(), fd.Name.Name)))
+					return
+				}
+				params, order := paramMap(info, fd)
+				var polyParams []string
+				for _, nm := range order {
+					for o, n2 := range params {
+						if n2 == nm {
+							if nt := namedOf(o.Type()); nt != nil && nt.Obj().Name() == "Poly" {
+								polyParams = append(polyParams, nm)
+							}
+						}
+					}
+				}
+				if same != nil && strings.Join(polyArgs, ",") != strings.Join(polyParams, ",") {
+					out = append(out, violOb("FWD", key, pos, fmt.Sprintf("%s passes the polynomials to SubRing.%s in the order (%s) but receives them as (%s)", fkey, callee.Name(), strings.Join(polyArgs, ","), strings.Join(polyParams, ","))))
+					return
+				}
+				out = append(out, okOb("FWD", key, pos, fmt.Sprintf("forwards to SubRing.%s through a per-level helper with operands in order", callee.Name()), same != nil))
+				return
+			}
 			// the last statement must be the per-level loop; earlier statements may only be simple definitions
 			rs, ok := fd.Body.List[len(fd.Body.List)-1].(*ast.RangeStmt)
 			if !ok || len(rs.Body.List) == 0 {
@@ -199,6 +231,60 @@ func scanFwd(c *core.Ctx) []ob {
 		}
 		// (ii) ringqp.Ring -> ring.Ring on Q and P
 		if qpPk != nil && pk == qpPk && named.Obj().Name() == "Ring" {
+			// the forwarder spelled with a method expression handed to a helper that visits both halves:
+			// r.applyTernary((*ring.Ring).Add, p1, p2, p3) — the operation named must be the same-named one and the
+			// polynomials must be passed in parameter order; that the helper treats Q and P alike is the helper's business
+			if len(fd.Body.List) == 1 && ringRing != nil {
+				if es, ok := fd.Body.List[0].(*ast.ExprStmt); ok {
+					if call, ok := es.X.(*ast.CallExpr); ok && calleeFunc(info, call) != nil && calleeFunc(info, call).Pkg() == pk.Types {
+						var m *types.Func
+						for _, a := range call.Args {
+							if sel, ok := unparen(a).(*ast.SelectorExpr); ok {
+								if f, ok := info.Uses[sel.Sel].(*types.Func); ok {
+									if rn := recvNamedOfFunc(f); rn != nil && rn.Origin() == ringRing.Origin() {
+										if tv, ok := info.Types[sel.X]; ok && tv.IsType() {
+											m = f
+										}
+									}
+								}
+							}
+						}
+						if m != nil {
+							nII++
+							key := "FWD:" + fkey
+							pos := c.Rel(call.Pos())
+							if same := methodByName(ringRing, fd.Name.Name); same != nil && m.Name() != fd.Name.Name {
+								out = append(out, violOb("FWD", key, pos, fmt.Sprintf("%s forwards to ring.Ring.%s although ring.Ring.%s exists", fkey, m.Name(), fd.Name.Name)))
+								return
+							}
+							params, order := paramMap(info, fd)
+							var polyArgs, polyParams []string
+							for _, a := range call.Args {
+								if r := forwardedArg(info, a, params); r.ok && r.proj == "" {
+									if nt := namedOf(info.TypeOf(a)); nt != nil && nt.Obj().Name() == "Poly" {
+										polyArgs = append(polyArgs, r.param)
+									}
+								}
+							}
+							for _, nm := range order {
+								for o, n2 := range params {
+									if n2 == nm {
+										if nt := namedOf(o.Type()); nt != nil && nt.Obj().Name() == "Poly" {
+											polyParams = append(polyParams, nm)
+										}
+									}
+								}
+							}
+							if strings.Join(polyArgs, ",") != strings.Join(polyParams, ",") {
+								out = append(out, violOb("FWD", key, pos, fmt.Sprintf("%s passes the polynomials on in the order (%s) but receives them as (%s)", fkey, strings.Join(polyArgs, ","), strings.Join(polyParams, ","))))
+								return
+							}
+							out = append(out, okOb("FWD", key, pos, fmt.Sprintf("hands ring.Ring.%s and its operands in order to a helper over the Q and P halves", m.Name()), true))
+							return
+						}
+					}
+				}
+			}
 			params, _ := paramMap(info, fd)
 			recv := recvObj(info, fd)
 			type branch struct {
@@ -282,6 +368,174 @@ func scanFwd(c *core.Ctx) []ob {
 	c.Stats["fwd_ring_forwarders"] = nI
 	c.Stats["fwd_ringqp_forwarders"] = nII
 	return out
+}
+
+// fwdThroughHelper recognises `r.helper((*SubRing).M, a, b, c)` as the whole body of a ring.Ring method, where helper
+// is a ring.Ring method whose last statement is `for i, s := range r.SubRings[…] { op(s, x.Coeffs[i], y.Coeffs[i], …) }`
+// with op its function parameter. It returns SubRing.M and the caller's polynomial arguments in the order in which the
+// helper hands them to op.
+func fwdThroughHelper(c *core.Ctx, pk *packages.Package, fd *ast.FuncDecl, subRing, ringRing *types.Named) (*types.Func, []string, string, bool) {
+	info := pk.TypesInfo
+	if subRing == nil || ringRing == nil || len(fd.Body.List) != 1 {
+		return nil, nil, "", false
+	}
+	es, ok := fd.Body.List[0].(*ast.ExprStmt)
+	if !ok {
+		return nil, nil, "", false
+	}
+	call, ok := es.X.(*ast.CallExpr)
+	if !ok || len(call.Args) < 2 {
+		return nil, nil, "", false
+	}
+	helper := calleeFunc(info, call)
+	if helper == nil {
+		return nil, nil, "", false
+	}
+	if rn := recvNamedOfFunc(helper); rn == nil || rn.Origin() != ringRing.Origin() {
+		return nil, nil, "", false
+	}
+	// the method expression
+	opIdx := -1
+	var m *types.Func
+	for i, a := range call.Args {
+		if sel, ok := unparen(a).(*ast.SelectorExpr); ok {
+			if f, ok := info.Uses[sel.Sel].(*types.Func); ok {
+				if rn := recvNamedOfFunc(f); rn != nil && rn.Origin() == subRing.Origin() {
+					if tv, ok := info.Types[sel.X]; ok && tv.IsType() {
+						opIdx, m = i, f
+					}
+				}
+			}
+		}
+	}
+	if m == nil {
+		return nil, nil, "", false
+	}
+	opI, order, ok := fwdHelperOrder(info, helper, 0)
+	if !ok || opI != opIdx {
+		return nil, nil, "", false
+	}
+	var polyArgs []string
+	cparams, _ := paramMap(info, fd)
+	for _, k := range order {
+		if k < 0 || k >= len(call.Args) {
+			return nil, nil, "", false
+		}
+		cr := forwardedArg(info, call.Args[k], cparams)
+		if !cr.ok || cr.proj != "" {
+			return nil, nil, "", false
+		}
+		polyArgs = append(polyArgs, cr.param)
+	}
+	return m, polyArgs, c.Rel(call.Pos()), true
+}
+
+// fwdHelperOrder describes a per-level helper: which of its parameters is the operation, and which parameters (by
+// index) it hands to the operation as the slices of level i, in order. The helper either owns the loop
+// (`for i, s := range … { op(s, p1.Coeffs[i], p2[i], …) }` as its last statement) or hands everything on to another
+// helper (`applyVec(r.activeSubRings(), op, p1.Coeffs, p2.Coeffs)`), followed up to three deep.
+func fwdHelperOrder(info *types.Info, helper *types.Func, depth int) (int, []int, bool) {
+	hdecl := fnDecls[funcOrigin(helper)]
+	if hdecl == nil || hdecl.Body == nil || len(hdecl.Body.List) == 0 || depth > 3 {
+		return 0, nil, false
+	}
+	hparams, horder := paramMap(info, hdecl)
+	last := hdecl.Body.List[len(hdecl.Body.List)-1]
+	if rs, ok := last.(*ast.RangeStmt); ok {
+		if len(rs.Body.List) != 1 || rs.Value == nil || rs.Key == nil {
+			return 0, nil, false
+		}
+		sVar := identObj(info, rs.Value)
+		iVar := identObj(info, rs.Key)
+		hes, ok := rs.Body.List[0].(*ast.ExprStmt)
+		if !ok || sVar == nil || iVar == nil {
+			return 0, nil, false
+		}
+		hcall, ok := hes.X.(*ast.CallExpr)
+		if !ok || len(hcall.Args) < 2 {
+			return 0, nil, false
+		}
+		opId, ok := unparen(hcall.Fun).(*ast.Ident)
+		if !ok {
+			return 0, nil, false
+		}
+		opI := horderIndex(horder, hparams[info.Uses[opId]])
+		if opI < 0 || identObj(info, hcall.Args[0]) != sVar {
+			return 0, nil, false
+		}
+		idx := "[" + iVar.Name() + "]"
+		var order []int
+		for _, a := range hcall.Args[1:] {
+			r := forwardedArg(info, a, hparams)
+			if !r.ok {
+				// a per-level scalar computed from the loop variables: not a polynomial operand
+				continue
+			}
+			if r.proj == ".Coeffs"+idx || r.proj == idx {
+				order = append(order, horderIndex(horder, r.param))
+			}
+		}
+		return opI, order, len(order) > 0
+	}
+	if len(hdecl.Body.List) != 1 {
+		return 0, nil, false
+	}
+	es, ok := last.(*ast.ExprStmt)
+	if !ok {
+		return 0, nil, false
+	}
+	call, ok := es.X.(*ast.CallExpr)
+	if !ok {
+		return 0, nil, false
+	}
+	inner := calleeFunc(info, call)
+	if inner == nil {
+		return 0, nil, false
+	}
+	iop, iorder, ok := fwdHelperOrder(info, inner, depth+1)
+	if !ok || iop >= len(call.Args) {
+		return 0, nil, false
+	}
+	opId, ok := unparen(call.Args[iop]).(*ast.Ident)
+	if !ok {
+		return 0, nil, false
+	}
+	opI := horderIndex(horder, hparams[info.Uses[opId]])
+	if opI < 0 {
+		return 0, nil, false
+	}
+	var order []int
+	for _, k := range iorder {
+		if k < 0 || k >= len(call.Args) {
+			return 0, nil, false
+		}
+		r := forwardedArg(info, call.Args[k], hparams)
+		if !r.ok || (r.proj != "" && r.proj != ".Coeffs") {
+			return 0, nil, false
+		}
+		order = append(order, horderIndex(horder, r.param))
+	}
+	return opI, order, true
+}
+
+func horderIndex(order []string, name string) int {
+	if name == "" {
+		return -1
+	}
+	for i, n := range order {
+		if n == name {
+			return i
+		}
+	}
+	return -1
+}
+
+func recvNamedOfFunc(f *types.Func) *types.Named {
+	sig, _ := f.Type().(*types.Signature)
+	if sig == nil || sig.Recv() == nil {
+		return nil
+	}
+	return namedOf(sig.Recv().Type())
 }
 
 func nameOf(f *types.Func) string {
